@@ -3,17 +3,54 @@
 import json, os
 HERE = os.path.dirname(os.path.dirname(os.path.abspath(__file__)))
 
+def _c(text, design, note, technique):
+    return dict(text=text, design=design, note=note, technique=technique)
+
+
+_TIE = ("tied to /repo on every run by evaluating the Gallina model inside Coq (vm_compute) on the same generated and "
+        "exhaustive-small inputs as the implementation and comparing exactly; the implementation is also compared with an "
+        "independent property-level oracle (NumPy / brute force)")
+_TB = "Trusted: Coq 8.16.1 kernel + vm_compute; harness generators/comparators and the Python->Coq literal printer; "
+
 CLAIMED = {
-    "C13": dict(
-        text="Unbounded Coq theorems about Gallina models of normalize_slice, fuse_slice, _compose_slices, _slice_1d, "
-             "new_blockdim, _compute_sliced_chunks (coq/Properties/C13.v); the models are tied to /repo on every run by "
-             "evaluating them inside Coq on the same generated and exhaustive-small inputs as the implementation and "
-             "comparing exactly, and the implementation is also compared with Python/NumPy slicing itself.",
-        design="5/C13",
-        note="Trusted: Coq kernel + vm_compute; CPython slice.indices/range transcription (PyBase.v) checked by the "
-             "correspondence; harness comparators. Model covers basic indices only (no list/bool fancy indices).",
-        technique="Coq proof over Gallina model + differential correspondence (vm_compute) against the Python helpers",
-    ),
+    "C01": _c("Differential execution of generated programs over the public API against NumPy (values, shape, dtype) with "
+              "shrinking; theorems of the expression calculus are added as the modelled fragment grows (proof-partial: the "
+              "property quantifies over all API programs, which no finite model covers).",
+              "5/C01", _TB + "NumPy is the oracle; programs outside the modelled fragment are checked by execution only.",
+              "Coq model of the core + differential execution vs NumPy over generated programs"),
+    "C13": _c("Unbounded Coq theorems about Gallina models of normalize_slice, fuse_slice (scalar and tuple), _compose_slices, "
+              "_slice_1d, new_blockdim (coq/Properties/C13.v: selection preserved; plan partitions the selected positions in "
+              "order, pieces inside blocks, chunk sizes = piece lengths; for all axis lengths, chunkings incl. zero-length "
+              "chunks, both step signs); " + _TIE + ".",
+              "5/C13", _TB + "CPython slice.indices/range transcription (PyBase.v) is validated by the correspondence. "
+              "Basic indices only (no list/bool fancy indices); N-D lifting of fuse_slice with None/int entries is checked "
+              "by correspondence, proved element-wise.",
+              "Coq proof over Gallina model + differential correspondence (vm_compute) against the Python helpers"),
+    "C15": _c("Coq theorems about a Gallina model of plan_rechunk and the old->new crosswalk (coq/Properties/C15.v): every "
+              "returned plan is a list of layouts of the shape ending in the target, no step exceeds the block budget (for "
+              "ALL values of the float-derived oracle choices), the crosswalk tiles every new block exactly (zero-size "
+              "chunks included), and the boolean checker run on the implementation's crosswalk is sound; " + _TIE + ".",
+              "5/C15", _TB + "float-derived choices (np.log sort key, ceil(log/log), round(..**..)) are recorded from the "
+              "implementation run by shadowing sorted/round/math in the module namespace and passed to the model as oracle "
+              "arguments; float floor/ceil assumed exact on the generated domain. 'plan_rechunk never raises' is checked, "
+              "not proved.",
+              "Coq proof over Gallina model of the planner (oracle arguments) + differential correspondence"),
+    "C16": _c("Coq theorems about a Gallina model of normalize_chunks/auto_chunks/blockdims_from_blockshape "
+              "(coq/Properties/C16.v): every accepted spec yields a valid layout for all oracle values; uniform sizes; zero "
+              "chunks only on empty axes unless written explicitly (refuted clause = known finding F4); auto byte limit under "
+              "the explicit k-th-root oracle hypothesis; " + _TIE + ".",
+              "5/C16", _TB + "the float `size` of auto_chunks is an oracle argument recomputed by the harness; the "
+              "previous_chunks branch of auto_chunks is not modelled (property-level checks only, with the configured "
+              "tolerance).",
+              "Coq proof over Gallina model + differential correspondence; previous_chunks branch by property oracle only"),
+    "C17": _c("Coq theorems about Gallina models of common_blockdim, coarse_blockdim and moved_fraction "
+              "(coq/Properties/C17.v): the refine layout is the finest common refinement, only splits and never grows a "
+              "block; the coarse layout is an operand layout all others refine or the common refinement (for every "
+              "tie-break oracle); refinements never grow blocks; " + _TIE + "; unify_chunks_expr itself is checked on real "
+              "operands x 3 policies x limits against the property (alignment, refine-only-splits, growth bound, values).",
+              "5/C17", _TB + "the cost-aware merge/realign decision logic of unify_chunks_expr is not modelled in Coq: its "
+              "outputs are checked against the property per instance; set-iteration tie-break is an oracle.",
+              "Coq proof over Gallina models of the per-axis helpers + property check of unify_chunks_expr outputs"),
 }
 
 NOT_APPLICABLE = {
